@@ -413,7 +413,8 @@ def rule_danglings_arg(ctx, c, rule):
     fn = c.fn
     for b, k, t in c.post_sites():
         src = c.prov.of_operand(fn, t["args"][3])
-        persistent = has_origin(src, path_suffix=(".danglings",))
+        persistent = has_origin(src, path_suffix=(".danglings",)) and c.from_role(src, "active", suffix=(".danglings",)) and \
+            all(("." + c.roles["active"]) in o.path for o in src if o.kind == "param" and o.path[-1:] == (".danglings",))
         if k in ("commit", "sweep"):
             ctx.check(persistent, rule, HC, fn.loc(b),
                       "the %s release passes the trace's own ActiveCollector.danglings map" % k,
@@ -524,6 +525,11 @@ def rule_map_ops(ctx, c, rule):
         for b in g.calls_re(r"HashMap::<K, V, S, A>::(entry|insert|extend)$", cleanup=False):
             if "DanglingItem" in g.term(b)["arg_tys"][0]:
                 dg.append(g.path)
+    holders = sorted(a["path"] for a in c.facts.adts.values() for v in a["variants"] for f in v["fields"]
+                     if "DanglingItem" in f["ty"] and "HashMap" in f["ty"])
+    ctx.check(holders == ["fastrace::collector::global_collector::ActiveCollector"], rule, "fastrace::collector::global_collector::ActiveCollector", "-",
+              "parked attachments live only inside the per-trace ActiveCollector (they die with their trace)", "%s" % holders,
+              "types holding a danglings map: %s" % holders, extra="danglings-holder")
     ok = bool(dg) and all(re.search(r"global_collector::amend_(local_)?span$", p) for p in dg)
     ctx.check(ok, rule, "fastrace::collector::global_collector", fn.span,
               "danglings maps grow only in amend_span / amend_local_span", "sites: %s" % sorted(set(dg)),
